@@ -10,8 +10,14 @@ RULE = ("seeded random grammars with results names (plain and 'name*') on tokens
         "implementation: lookup forms agree (r[n], getattr, get, as_dict, dump, keys); Group(g) shows no name of g at top level and "
         "exactly g's names on its sub-result; (g1 | g2) reports exactly the names of the alternative that matched; (g1 + g2) reports "
         "the merge of g1's names on the prefix and g2's names on the rest (last wins / list-all accumulates); a named token reports "
-        "its token, a named sequence its token list; an unmatched Opt reports nothing; non-trivial = result with >= 1 name")
-TRUSTED = pcommon.TRUSTED_PARSE + ["the compositional oracle re-parses the components with the public API (no model involved)"]
+        "its token, a named sequence its token list; an unmatched Opt reports nothing; non-trivial = result with >= 1 name; "
+        "(v) the reference reading names_of of the end-to-end theorem (coq/Model/NamesSpec.v), evaluated by coqc on the dumps of the "
+        "scenario grammars and of seeded random named grammars of the class in_class_n, vs the abstract view (token list with nested "
+        "sub-results and their names, every name with all its values, list-all set) of what parse_string returns; the witness grammars "
+        "of Props/C05.v are re-dumped from the real objects and compared term by term")
+TRUSTED = pcommon.TRUSTED_PARSE + ["the compositional oracle re-parses the components with the public API (no model involved)",
+                                   "names_of is evaluated by coqc (vm_compute) on Gallina terms printed from the dumps by tools/props/c05.py "
+                                   "(sx_to_coq: a transliteration of the S-expressions of tools/harness/dump.py)"]
 
 SCENARIOS = [
     # (description, builder, input, expected as_dict-shaped name view or callable check)
@@ -44,6 +50,363 @@ SCENARIOS = [
      {"pair": [["1", "2"], ["2", "1"]]}),
     ("named trailing nested Each", lambda pp: pp.Literal("x") & (pp.Word("12") & pp.Word("ab"))("e"), "x 1 a", {"e": ["1", "a"]}),
 ]
+
+
+# ---------------------------------------------------------------------------------------------------------------
+# the Coq reference reading `names_of` (coq/Model/NamesSpec.v) evaluated by coqc on the dumps of real grammar objects and
+# compared with the abstract view (token list with nested sub-results, name -> all values, list-all set) of what the
+# implementation returns: ties the reference of C05_names_end_to_end_partial itself to the code.
+# ---------------------------------------------------------------------------------------------------------------
+REF_PREAMBLE = """From Coq Require Import List ZArith NArith Bool.
+From PP Require Import Model.Str Model.Results Model.ResultsAPI Model.ResultsSpec Model.Prog Model.Core Model.Peg Model.NamesSpec.
+Import ListNotations.
+Definition A_ (n : nat) (rs : option str) (mo asl sk : bool) (wh : list char) (cp mi cu hm ct : bool) (sl : nat) : attrs :=
+  {| nid := n; rsname := rs; modalr := mo; aslist := asl; skipws := sk; white := wh; callpre := cp; mayidx := mi;
+     custom := cu; hasmsg := hm; acts := []; calltry := ct; slen := sl |}.
+Definition run_ref (G : env) (e : expr) (s : str) :=
+  (in_class_n G e && env_in_class_n G, nres_obs (names_of G s 300 e 0)).
+"""
+
+
+class NotExpressible(Exception):
+    pass
+
+
+def _cb(x):
+    return "true" if x == "1" else "false"
+
+
+def _cchars(l):
+    return "[" + ";".join(l) + "]%N"
+
+
+def _conat(x):
+    return "None" if x == "N" else "(Some %s)" % x
+
+
+def attrs_coq(A):
+    if A[0] != "A" or A[11] != []:
+        raise NotExpressible("parse actions")
+    rs = "None" if A[2] == "N" else "(Some %s)" % _cchars(A[2][1:])
+    return "(A_ %s %s %s %s %s %s %s %s %s %s %s %s)" % (A[1], rs, _cb(A[3]), _cb(A[4]), _cb(A[5]), _cchars(A[6]), _cb(A[7]), _cb(A[8]),
+                                                          _cb(A[9]), _cb(A[10]), _cb(A[12]), A[13])
+
+
+def tokval_coq(t):
+    if t == "none":
+        return "TNone"
+    if t[0] == "s":
+        return "(TStr %s)" % _cchars(t[1])
+    if t[0] == "i":
+        return "(TInt (%s)%%Z)" % t[1]
+    if t[0] == "b":
+        return "(TBool %s)" % _cb(t[1])
+    if t[0] == "l":
+        return "(TList [%s])" % "; ".join(tokval_coq(x) for x in t[1:])
+    raise NotExpressible("token value %r" % (t,))
+
+
+def sx_to_coq(sx):
+    """dumped grammar node (parsed S-expression of tools/harness/dump.py) -> Gallina term of type expr"""
+    k = sx[0]
+    A = attrs_coq(sx[1])
+    I = "[%s]" % "; ".join(sx_to_coq(x) for x in sx[2])
+    if k == "T":
+        t = sx[3]
+        simple = {"empty": "KEmpty", "nomatch": "KNoMatch", "lineend": "KLineEnd", "stringstart": "KStringStart", "stringend": "KStringEnd",
+                  "errorstop": "KErrorStop"}
+        if isinstance(t, str):
+            if t not in simple:
+                raise NotExpressible("token %r" % (t,))
+            tk = simple[t]
+        elif t[0] == "lit": tk = "(KLit %s)" % _cchars(t[1])
+        elif t[0] == "clit": tk = "(KCaselessLit %s %s)" % (_cchars(t[1]), _cchars(t[2]))
+        elif t[0] == "kw": tk = "(KKeyword %s %s %s %s)" % (_cchars(t[1]), _cchars(t[2]), _cb(t[3]), _cchars(t[4]))
+        elif t[0] == "word": tk = "(KWord %s %s %s %s %s %s %s)" % (_cchars(t[1]), _cchars(t[2]), t[3], _conat(t[4]), _cb(t[5]), _cb(t[6]), _cb(t[7]))
+        elif t[0] == "notin": tk = "(KNotIn %s %s %s)" % (_cchars(t[1]), t[2], _conat(t[3]))
+        elif t[0] == "white": tk = "(KWhite %s %s %s)" % (_cchars(t[1]), t[2], _conat(t[3]))
+        elif t[0] == "wordstart": tk = "(KWordStart %s)" % _cchars(t[1])
+        elif t[0] == "wordend": tk = "(KWordEnd %s)" % _cchars(t[1])
+        elif t[0] == "linestart": tk = "(KLineStart %s %s)" % (_cb(t[1]), _cchars(t[2]))
+        elif t[0] == "gotocol": tk = "(KGoToCol %s)" % t[1]
+        else:
+            raise NotExpressible("token %r" % (t,))
+        return "(Tok %s %s %s)" % (A, I, tk)
+    if k == "N" and sx[3] in ("and", "mf", "or"):
+        kind = {"and": "NAnd", "mf": "NMatchFirst", "or": "NOr"}[sx[3]]
+        return "(Nary %s %s %s [%s])" % (A, I, kind, "; ".join(sx_to_coq(x) for x in sx[4]))
+    if k == "E":
+        ek = sx[3]
+        simple = {"suppress": "ESuppress", "not": "ENot", "fb": "EFollowedBy", "pass": "EPass", "lookahead": "ELookahead", "located": "ELocated",
+                  "dict": "EDict", "atstringstart": "EAtStringStart", "atlinestart": "EAtLineStart"}
+        if isinstance(ek, str):
+            if ek not in simple:
+                raise NotExpressible("enhance %r" % (ek,))
+            e = simple[ek]
+        elif ek[0] == "group": e = "(EGroup %s)" % _cb(ek[1])
+        elif ek[0] == "opt": e = "(EOpt None)" if ek[1] == "N" else "(EOpt (Some %s))" % tokval_coq(ek[1])
+        elif ek[0] == "combine": e = "(ECombine %s)" % _cchars(ek[1])
+        else:
+            raise NotExpressible("enhance %r" % (ek,))
+        return "(Enh %s %s %s %s)" % (A, I, e, sx_to_coq(sx[4]))
+    if k == "R":
+        return "(Rep %s %s %s %s %s)" % (A, I, _cb(sx[3]), sx_to_coq(sx[4]), "None" if sx[5] == "N" else "(Some %s)" % sx_to_coq(sx[5]))
+    if k == "F":
+        return "(Fwd %s %s %s)" % (A, I, _conat(sx[3]))
+    raise NotExpressible("node %r" % (k,))
+
+
+def dump_coq(root):
+    """real (streamlined) object graph -> (Gallina env term, Gallina root term)"""
+    from tools.harness import dump, observe
+    d = dump.Dumper()
+    rsx, esx = d.dump(root)
+    env = observe.parse_sx(esx)[1:]
+    return "[%s]" % "; ".join(sx_to_coq(x) for x in env), sx_to_coq(observe.parse_sx(rsx))
+
+
+def _norm_v(t):
+    """canonical abstract token (both sides): list-all sets sorted, at every level"""
+    if isinstance(t, tuple) and t and t[0] == "VPR":
+        return ("VPR", [_norm_v(x) for x in t[1]], [(list(k), [_norm_v(v) for v in vs]) for k, vs in t[2]], sorted(list(x) for x in t[3]))
+    if isinstance(t, tuple) and t and t[0] == "VList":
+        return ("VList", [_norm_v(x) for x in t[1]])
+    if isinstance(t, tuple) and t and t[0] == "VStr":
+        return ("VStr", list(t[1]))
+    return t
+
+
+def view_of_real_tok(t):
+    """canonical token of tools/harness/observe.py -> abstract token (the `tview` of Model/ResultsSpec.v)"""
+    if t == "none":
+        return ("VNone",)
+    if t[0] == "s": return ("VStr", [ord(c) for c in t[1]])
+    if t[0] == "i": return ("VInt", t[1])
+    if t[0] == "b": return ("VBool", t[1])
+    if t[0] == "l": return ("VList", [view_of_real_tok(x) for x in t[1]])
+    if t[0] == "p":
+        return ("VPR",) + view_of_real(t[1])
+    raise ValueError(t)
+
+
+def view_of_real(p):
+    """canonical pres -> (token list, [(name, [values])], sorted list-all names): positions and `_name` are forgotten"""
+    return ([view_of_real_tok(x) for x in p[1]],
+            [([ord(c) for c in k], [view_of_real_tok(v) for v, _ in occ]) for k, occ in p[2]],
+            sorted([ord(c) for c in n] for n in p[3]))
+
+
+def ref_outcome(val):
+    """parsed `run_ref` value -> (in_class, ('ok', end, view) | ('fail',) | ('div',) | ('out',))"""
+    inc, (code, l, body) = val
+    if code == 0:
+        lst, mp, al = body[1]
+        v = _norm_v(("VPR", lst, mp, al))
+        return inc, ("ok", l, (v[1], v[2], v[3]))
+    return inc, ({1: "fail", 2: "div", 3: "out"}[code],)
+
+
+def real_outcome(root, s):
+    """the implementation on the same case: parse_string (= _parse(s, 0) on a tab-free input) through the canonical observation"""
+    from tools.harness import observe, dump
+    r = observe.run_real(root, dump.Dumper(), s, ("none",), ("parse", False))
+    if r[0] == "ok":
+        v = _norm_v(("VPR",) + view_of_real(r[1]))
+        return ("ok", (v[1], v[2], v[3]))
+    if r[0] == "err":
+        return ("fail",) if r[1] == "ParseException" else ("other", r[1])
+    return ("div",)
+
+
+REF_LEAVES = [("lit", "a"), ("lit", "b"), ("lit", "ab"), ("word", "ab"), ("word", "12"), ("kw", "a"), ("lit", ","), ("empty",), ("stringend",),
+              ("clit", "aB"), ("char", "ab"), ("fwd", 0)]
+
+
+def rand_named(rng, depth):
+    """random grammar of the class of the end-to-end theorem, with results names (plain and 'name*') at every level"""
+    def go(d):
+        if d <= 1 or rng.random() < 0.15:
+            g = rng.choice(REF_LEAVES)
+        else:
+            r = rng.random()
+            if r < 0.35:
+                g = ("and",) + tuple(go(d - 1) for _ in range(rng.choice([2, 2, 3])))
+            elif r < 0.5:
+                g = ("mf",) + tuple(go(d - 1) for _ in range(rng.choice([2, 2, 3])))
+            elif r < 0.58:
+                g = ("or",) + tuple(go(d - 1) for _ in range(rng.choice([2, 2])))
+            else:
+                u = rng.choice(["opt", "opt", "optd", "star", "plus", "group", "group", "suppress", "fb", "not"])
+                if u in ("star", "plus"):
+                    body = go(d - 1)
+                    if gen.nullable(body, gen.ENV0):
+                        body = ("and", rng.choice([("lit", "a"), ("word", "ab")]), body)
+                    g = (u, body)
+                elif u == "optd":
+                    g = ("optd", rng.choice(["D", 7, None, True]), go(d - 1))
+                else:
+                    g = (u, go(d - 1))
+        # few distinct names, so that the same name is bound several times (last wins / list-all accumulation / mixed declarations)
+        if rng.random() < (0.55 if g[0] in ("lit", "word", "kw", "clit", "char") else 0.35):
+            g = (rng.choice(["name", "namestar"]), rng.choice(["x", "x", "y"]), g)
+        return g
+    return go(depth)
+
+
+def reference_cases(ctx, n):
+    """[(g, env, input, root object, Gallina term)] for n random named grammars"""
+    rng = ctx.rng
+    cases = []
+    for i in range(n):
+        g = rand_named(rng, rng.randint(1, 4))
+        env = rng.choice([gen.ENV0, gen.ENV_EXPR, {0: ("name", "f", ("and", ("lit", "("), ("opt", ("fwd", 0)), ("lit", ")")))}])
+        try:
+            root = build.Builder(env).build_all(g)
+            root.streamline()
+            G, e = dump_coq(root)
+        except (build.Unbuildable, NotExpressible, Exception) as ex:
+            ctx.stat("reference_unsupported")
+            continue
+        inputs = set()
+        for _ in range(3):
+            s = gen.sample_input(rng, g, env)
+            inputs.add(s)
+            inputs.add(gen.mutate_input(rng, s))
+        for s in sorted(x for x in inputs if "\t" not in x)[:4]:
+            cases.append((g, env, s, root, "run_ref %s %s %s" % (G, e, vlib.coq_str(s))))
+    return cases
+
+
+def compare_reference(ctx, cases, tag):
+    import os
+    if not cases:
+        return
+    vals = []
+    CH = 400
+    for c in range(0, len(cases), CH):
+        vals += vlib.coq_eval_terms("c05_ref_%s_%d_%d" % (tag, os.getpid(), c), REF_PREAMBLE, [t for _, _, _, _, t in cases[c:c + CH]], timeout=900)
+    nin = 0
+    for (g, env, s, root, _), val in zip(cases, vals):
+        inc, ref = ref_outcome(val)
+        if not inc:
+            ctx.stat("reference_outside_class")
+            continue
+        real = guarded(lambda: real_outcome(root, s), 3.0)
+        if real is None or real[0] in ("div", "other") or ref[0] in ("div", "out"):
+            ctx.stat("reference_not_compared")
+            continue
+        nin += 1
+        want = ("ok", ref[2]) if ref[0] == "ok" else ("fail",)
+        named = real[0] == "ok" and (len(real[1][1]) > 0 or any(isinstance(t, tuple) and t[0] == "VPR" and t[2] for t in real[1][0]))
+        ctx.case("names-ref:%r|%r|%r" % (g, sorted(env.items()), s), named, real == want)
+        if real != want:
+            ctx.violation("names-reference:%r|%r|%r" % (g, sorted(env.items()), s),
+                          "%r (env %r) on %r: the implementation returns %r but the reference reading names_of (Model/NamesSpec.v; "
+                          "C05_names_end_to_end_partial) gives %r" % (g, env, s, real, want),
+                          {"kind": "names-ref", "grammar": g, "env": env, "input": s})
+    ctx.stat("reference_compared_" + tag, nin)
+
+
+def _f05c(pp):
+    F = pp.Forward()
+    named = F("q")                       # the name is given BEFORE the Forward is assigned
+    F <<= "(" + pp.Word("ab") + ")"
+    return named
+
+
+def _fwd_named_after(pp):
+    F = pp.Forward()
+    F <<= "(" + pp.Word("ab") + ")"
+    return F("q")                        # the same grammar, named AFTER the assignment
+
+
+# the witness grammars of coq/Props/C05.v (Definitions w_*: dumps of these real objects after streamline(), re-dumped and compared
+# on every run) with the input of their Example and the names the Example states
+E2E_WITNESSES = [
+    ("w_main", lambda pp: pp.Word("ab")("k") + pp.Group(pp.Word("12")("n") + pp.Word("12")("n"))("g") + pp.Opt(pp.Word("ab")("o")),
+     ["a 1 2 b", "a 1 2"]),
+    ("w_last_wins", SCENARIOS[2][1], [SCENARIOS[2][2]]),
+    ("w_listall", SCENARIOS[3][1], [SCENARIOS[3][2]]),
+    ("w_seq_inner", SCENARIOS[5][1], [SCENARIOS[5][2]]),
+    ("w_listall_container", SCENARIOS[6][1], [SCENARIOS[6][2]]),
+    ("w_rep_last", SCENARIOS[8][1], [SCENARIOS[8][2]]),
+    ("w_rep_listall", SCENARIOS[9][1], [SCENARIOS[9][2]]),
+    ("w_group_scope", SCENARIOS[10][1], [SCENARIOS[10][2]]),
+    ("w_group_name", SCENARIOS[11][1], [SCENARIOS[11][2]]),
+    ("w_alternative", SCENARIOS[12][1], [SCENARIOS[12][2]]),
+    ("w_opt_unmatched", SCENARIOS[13][1], [SCENARIOS[13][2]]),
+    ("w_opt_default", SCENARIOS[14][1], [SCENARIOS[14][2]]),
+    ("w_suppress", SCENARIOS[16][1], [SCENARIOS[16][2]]),
+    ("w_followedby", SCENARIOS[17][1], [SCENARIOS[17][2]]),
+    ("w_nested_or", SCENARIOS[23][1], [SCENARIOS[23][2]]),
+    ("w_rep_nested_listall", SCENARIOS[24][1], [SCENARIOS[24][2]]),
+    ("w_zero_rep", lambda pp: pp.ZeroOrMore(pp.Word("a"))("z") + pp.Word("b"), ["b"]),
+    ("w_f05c", _f05c, ["(ab)"]),
+    ("w_fwd_named_after", _fwd_named_after, ["(ab)"]),
+    ("w_opt_default_listall", lambda pp: pp.Opt(pp.Word("a")("x*"), default="D"), [""]),
+]
+
+
+def _vtok_coq(v):
+    if isinstance(v, str): return "VStr %s" % vlib.coq_str(v)
+    if isinstance(v, bool): return "VBool %s" % ("true" if v else "false")
+    if isinstance(v, int): return "VInt (%d)%%Z" % v
+    if v is None: return "VNone"
+    return "VList [%s]" % "; ".join(_vtok_coq(x) for x in v)
+
+
+def emit_witnesses():
+    """the text of the witness Definitions / Examples of coq/Props/C05.v (python -c 'from tools.props import c05; print(c05.emit_witnesses())')"""
+    import pyparsing as pp
+    out = []
+    for name, mk, inputs in E2E_WITNESSES:
+        e = mk(pp)
+        e.streamline()
+        G, t = dump_coq(e)
+        out.append("Definition %s_G : env := %s.\nDefinition %s : expr := %s." % (name, G.replace("A_ ", "c05_at "), name, t.replace("A_ ", "c05_at ")))
+        for i, s in enumerate(inputs):
+            if name == "w_opt_default_listall":
+                continue                  # outside the class of the theorem: C05_opt_default_listall_refuted is stated by hand
+            r = e.parse_string(s)
+            nv = "[%s]" % "; ".join("(%s, %s)" % (vlib.coq_str(k), _vtok_coq(v)) for k, v in real_name_view(r).items())
+            out.append("Example C05_e2e_%s%s :\n  in_class_n %s_G %s && env_in_class_n %s_G = true /\\\n"
+                       "  nproj (parse (step %s_G) 40 (mkargs %s %s 0 true true)) = Some (names_of %s_G %s 40 %s 0) /\\\n"
+                       "  nres_names (names_of %s_G %s 40 %s 0) = Some %s.\nProof. vm_compute. repeat split. Qed."
+                       % (name[2:], "" if len(inputs) == 1 else "_%d" % (i + 1), name, name, name, name, name, vlib.coq_str(s), name, vlib.coq_str(s), name,
+                          name, vlib.coq_str(s), name, nv))
+    return "\n".join(out)
+
+
+def check_witness_dumps(ctx):
+    """the witness grammars stated in Props/C05.v are the dumps of the real objects (as built by the code under test)"""
+    import pyparsing as pp
+    # compared up to `slen` (= len(str(element)), which only orders simultaneous fatal errors of Or / Each)
+    pre = REF_PREAMBLE + """From PP Require Import Proofs.EqDec Props.C05.
+Fixpoint zs (e : expr) : expr :=
+  let za (a : attrs) := {| nid := nid a; rsname := rsname a; modalr := modalr a; aslist := aslist a; skipws := skipws a;
+    white := white a; callpre := callpre a; mayidx := mayidx a; custom := custom a; hasmsg := hasmsg a; acts := acts a;
+    calltry := calltry a; slen := 0 |} in
+  match e with
+  | Tok a i t => Tok (za a) (map zs i) t
+  | Nary a i k es => Nary (za a) (map zs i) k (map zs es)
+  | Enh a i k c => Enh (za a) (map zs i) k (zs c)
+  | Rep a i z c ne => Rep (za a) (map zs i) z (zs c) (option_map zs ne)
+  | Skip a i c incl ig fo => Skip (za a) (map zs i) (zs c) incl (map zs ig) (option_map zs fo)
+  | Fwd a i b => Fwd (za a) (map zs i) b
+  end.
+"""
+    terms = []
+    for name, mk, inputs in E2E_WITNESSES:
+        e = mk(pp)
+        e.streamline()
+        G, t = dump_coq(e)
+        terms.append("(if expr_eq_dec (zs %s) (zs %s) then true else false, if list_eq_dec expr_eq_dec (map zs %s_G) (map zs %s) then true else false)" % (name, t, name, G))
+    vals = vlib.coq_eval_terms("c05_witness_dumps", pre, terms, timeout=600)
+    for (name, mk, inputs), v in zip(E2E_WITNESSES, vals):
+        ctx.case("witness-dump:" + name, True, v == (True, True))
+        if v != (True, True):
+            ctx.broken("tie:witness-dump the grammar %s of Props/C05.v is no longer the dump of the real object it stands for "
+                       "(attributes or structure changed in the implementation)" % name)
 
 
 def real_name_view(r):
@@ -313,6 +676,33 @@ def correspond(ctx):
                               "%r on %r: with %r the names are %r, with memoization off %r" % (
                                   r["g"], r["inp"], mode, views.name_view(r["real"][1]), views.name_view(base["real"][1])),
                               {"kind": "packrat-names", "grammar": r["g"], "env": r["env"], "input": r["inp"], "mode": mode})
+    # (v) the end-to-end theorem (C05_names_end_to_end_partial): its witness grammars are the dumps of the real objects; its
+    # reference reading `names_of`, evaluated by coqc on the dumps of the scenario grammars and of random named grammars of the
+    # class, gives the abstract view (tokens with nested sub-results, every name with all its values, list-all set) of what the
+    # implementation returns
+    check_witness_dumps(ctx)
+    scen = []
+    for desc, mk, inp, want in SCENARIOS:
+        try:
+            root = mk(pp)
+            root.streamline()
+            G, e = dump_coq(root)
+        except (NotExpressible, Exception):
+            ctx.stat("reference_unsupported")
+            continue
+        scen.append(("scenario:" + desc, {}, inp, root, "run_ref %s %s %s" % (G, e, vlib.coq_str(inp))))
+    compare_reference(ctx, scen, "scenarios")
+    compare_reference(ctx, reference_cases(ctx, 150 if not ctx.thorough else 1500), "random")
+    # F-05e: the default value of an Opt whose content carries a list-all name is reported as a scalar
+    r = parse_ok(pp.Opt(pp.Word("a")("x*"), default="D"), "")
+    rm = parse_ok(pp.Opt(pp.Word("a")("x*"), default="D"), "a")
+    if r is not None and rm is not None:
+        got = r["x"].as_list() if isinstance(r["x"], pp.ParseResults) else r["x"]
+        ctx.case("opt-default-listall", True, True)
+        if got != ["D"] and rm["x"].as_list() == ["a"]:
+            ctx.violation("opt-default-under-listall-name", "Opt(Word('a')('x*'), default='D') on '': results['x'] is %r, but a list-all name "
+                          "reports the list of its values (['D']; a match gives %r)" % (got, rm["x"].as_list()),
+                          {"kind": "opt-default-listall"})
     ctx.stat("oracle_pairs", npairs)
     ctx.stat("oracle_violations", nbad)
     ctx.sample({"scenario": SCENARIOS[3][0], "input": SCENARIOS[3][2], "names": SCENARIOS[3][3]})
@@ -354,6 +744,27 @@ def replay(ctx, obj):
                 got = None if rr is None else real_name_view(rr)
                 print(desc, inp, got, want)
                 return got == want
+    if r.get("kind") == "opt-default-listall":
+        a, b = pp.Opt(pp.Word("a")("x*"), default="D").parse_string(""), pp.Opt(pp.Word("a")("x*"), default="D").parse_string("a")
+        print("unmatched: x =", a["x"], " matched: x =", b["x"])
+        return isinstance(a["x"], pp.ParseResults) and a["x"].as_list() == ["D"]
+    if r.get("kind") == "names-ref":
+        g = r["grammar"]
+        if isinstance(g, str) and g.startswith("scenario:"):
+            root = [mk for desc, mk, _, _ in SCENARIOS if "scenario:" + desc == g][0](pp)
+        else:
+            env = {int(k): _tuplify(v) for k, v in (r.get("env") or {}).items()}
+            root = build.Builder(env).build_all(_tuplify(g))
+        root.streamline()
+        G, e = dump_coq(root)
+        val = vlib.coq_eval_terms("c05_ref_replay", REF_PREAMBLE, ["run_ref %s %s %s" % (G, e, vlib.coq_str(r["input"]))])[0]
+        inc, ref = ref_outcome(val)
+        real = real_outcome(root, r["input"])
+        want = ("ok", ref[2]) if ref[0] == "ok" else (ref[0],)
+        print("in class:", inc)
+        print("reference     :", want)
+        print("implementation:", real)
+        return real == want
     if r.get("kind") == "pair":
         env = {int(k): _tuplify(v) for k, v in (r.get("env") or {}).items()}
         bad, _ = oracle_pair(_tuplify(r["g1"]), _tuplify(r["g2"]), env, r["s1"], r["s2"])
